@@ -209,7 +209,11 @@ fn update<H: HashAlgorithm>(
     let UpdateCommand { shared, write_pass } = command;
     let write_pass = write_pass.into_inner();
 
-    let mut output = WorkerOutput::new(shared.witness);
+    let shard_index = match write_pass.region() {
+        ShardIndex::Root => 0,
+        ShardIndex::Shard(i) => *i,
+    };
+    let mut output = WorkerOutput::new(shared.witness, shard_index);
 
     let mut page_set = PageSet::new(page_pool, warm_page_set);
 
